@@ -562,6 +562,12 @@ def run_hist(spec):
     strict = [False]
 
     def start(root, hexs):
+        if root in ("Pip", "Peth"):
+            # a pcapng capture (raw IP / Ethernet frames) of the messages hex+hex+..., decoded as a stream
+            from tpmstream.io.pcapng import Pcapng
+
+            payloads = [bytes.fromhex(x) for x in hexs.split("+")]
+            return G(Pcapng.marshal(tpm_type=CommandResponseStream, buffer=make_pcapng(payloads, root[1:]), abort_on_error=strict[0]))
         t, kw = parse_root(root)
         data = b"" if hexs == "-" else bytes.fromhex(hexs)
         return G(Binary.marshal(tpm_type=t, buffer=data, abort_on_error=strict[0], **kw))
@@ -574,7 +580,29 @@ def run_hist(spec):
             rebuilt = "EXC " + type(e).__name__
         return evs, g.value, rebuilt
 
-    return _hist_mode(items, start, finish, strict, False) if not spec.startswith("!") else "BADSPEC"
+    r = _hist_mode(items, start, finish, strict, False) if not spec.startswith("!") else "BADSPEC"
+    if not r.startswith("OK"):
+        return r
+    # a capture decodes like the bytes it carries whatever was decoded before it in this process (the histories only
+    # compare decodes within the process with each other)
+    for mode in (False, True):
+        strict[0] = mode
+        for i, (root, hexs) in enumerate(items):
+            if root not in ("Pip", "Peth"):
+                continue
+            sigs = []
+            for g in (start(root, hexs), G(Binary.marshal(tpm_type=CommandResponseStream, buffer=b"".join(bytes.fromhex(x) for x in hexs.split("+")), abort_on_error=mode))):
+                evs = []
+                try:
+                    for e in g:
+                        if isinstance(e, MarshalEvent):
+                            evs.append(e)
+                except Exception as e:  # noqa
+                    evs.append("EXC " + type(e).__name__)
+                sigs.append(evs)
+            if sigs[0] != sigs[1]:
+                return "BAD capture item=%d differs-from-carried-bytes %s" % (i, "strict" if mode else "warn")
+    return r
 
 
 def _hist_mode(items, start, finish, strict, _unused):
@@ -846,6 +874,41 @@ def run_fevents(kind, abort, root, texthex):
     return ";".join(out)
 
 
+def run_fesrc(kind, abort, root, texthex):
+    """C10: a front-end's result does not depend on the kind of iterable that supplies the container bytes"""
+    from tpmstream.io.auto import Auto
+    from tpmstream.io.hex import Hex
+    from tpmstream.io.pcapng import Pcapng
+    from tpmstream.io.swtpm_log import SWTPMLog
+
+    t, kw = parse_root(root)
+    text = b"" if texthex == "-" else bytes.fromhex(texthex)
+    F = {"hex": Hex, "swtpm": SWTPMLog, "auto": Auto, "binary": Binary, "pcap": Pcapng}[kind]
+    ref = None
+    for src in ("bytes", "bytearray", "list", "iter", "generator", "counting", "memoryview"):
+        buf = {"bytes": lambda: text, "bytearray": lambda: bytearray(text), "list": lambda: list(text), "iter": lambda: iter(text),
+               "generator": lambda: (b for b in text), "counting": lambda: Counting(text), "memoryview": lambda: memoryview(text)}[src]()
+        out = []
+        try:
+            for ev in F.marshal(tpm_type=t, buffer=buf, abort_on_error=abort, **kw):
+                out.append(show_event(ev, 0))
+            out.append("ACC")
+        except InputStreamBytesDepletedError as e:
+            out.append("DEP %s" % oz(e.command_code))
+        except InputStreamSuperfluousBytesError as e:
+            out.append("SUP %s %s" % (hx(e.bytes_remaining), oz(e.command_code)))
+        except ConstraintViolatedError as e:
+            out.append("RAISE %s rem=%s" % (show_err(e), hx(e.bytes_remaining)))
+        except Exception as e:  # noqa
+            out.append("EXC %s" % type(e).__name__)
+        sig = ";".join(out)
+        if ref is None:
+            ref = sig
+        elif sig != ref:
+            return "DIFF %s: %s | bytes: %s" % (src, sig[-120:], ref[-120:])
+    return "SAME"
+
+
 def run_pretty(abort, root, hexs):
     """C14: rows of the pretty printer for the events of a decode (what was emitted before any exception);
     also runs the events printer.  Rows separated by \\x1e."""
@@ -951,6 +1014,8 @@ def handle(line):
         return run_fe(parts[1], parts[2])
     if parts[0] == "fevents":
         return run_fevents(parts[1], parts[2] == "1", parts[3], parts[4])
+    if parts[0] == "fesrc":
+        return run_fesrc(parts[1], parts[2] == "1", parts[3], parts[4])
     if parts[0] == "stream9":
         return run_stream9(parts[1])
     if parts[0] == "objs":
